@@ -3,16 +3,31 @@ from __future__ import annotations
 
 import sys
 import time
+from concurrent.futures import ThreadPoolExecutor
 
-from . import engine
+from . import engine, tlc
 from .common import Result
 
 
 def main() -> int:
     t0 = time.time()
     res = Result("warm", "quick", "model_checking")
-    engine.model_check(res, ["q"])
-    engine.non_vacuity(res, ["Laminar", "NoDoubleReport", "Conforms"])
+    jobs = []
+    jobs.append(lambda: engine.model_check(res, ["q"]))
+    jobs.append(lambda: engine.non_vacuity(res, ["Laminar", "NoDoubleReport", "Conforms"]))
+    from . import props_keyword, props_tree
+
+    jobs.append(lambda: props_tree.model_check(res, ["q"]))
+    jobs.append(lambda: tlc.must_pass(tlc.run("KeywordMC", props_keyword.cfg("q"), cache=True, timeout=3000, heap="12g"), "KeywordMC[q]"))
+    try:
+        from . import warm_more
+
+        jobs += warm_more.jobs(res)
+    except ImportError:
+        pass
+    with ThreadPoolExecutor(3) as ex:
+        for f in [ex.submit(j) for j in jobs]:
+            f.result()
     print(f"warm: spec-only TLC runs cached in {time.time() - t0:.0f} s")
     return 0
 
